@@ -41,7 +41,7 @@ ASSUMPTIONS = [
 
 
 def population(tier, seed):
-    n = {"quick": (300, 250, 30), "thorough": (5000, 4000, 400)}[tier]
+    n = {"quick": (300, 250, 30), "thorough": (2500, 2000, 200)}[tier]
     progs = minic_gen.generate(seed * 1000 + 41, PLAT, "c04safe", n[0], "s_")
     progs += minic_gen.generate(seed * 1000 + 42, PLAT, "c04bug", n[1], "b_")
     progs += minic_gen.generate(seed * 1000 + 43, PLAT, "mix", n[2], "m_")
@@ -53,7 +53,7 @@ def main(tier, seed, replay=None):
     if replay:
         return minic.replay(PID, replay)
     progs = population(tier, seed)
-    sizes = (50, 300, 100) if tier == "quick" else (150, 400, 600)
+    sizes = (50, 300, 100) if tier == "quick" else (100, 400, 500)
     nsafe = sum(1 for p in progs if p["profile"] == "c04safe")
     rc, cov = minic.run_check(PID, tier, seed, progs, "flag", sizes, assumptions=ASSUMPTIONS,
                               extra={"programs_correct_by_construction": nsafe, "programs_guard_removed": sum(1 for p in progs if p["profile"] == "c04bug")})
